@@ -191,34 +191,63 @@ void locate_payload(blob_t& blob, const ttensor& tensor)
     }
 }
 
-blob_t parameter_blob(const parameter_t& param)
+// the destination of a read is a fresh object or a used one: an object that was loaded before from `pre` (another serialized
+// object of the same kind); what is read must replace it completely - also observed by writing the copy out again
+template <class tobject>
+void preload(tobject& object, const std::string& pre)
+{
+    if (!pre.empty())
+    {
+        std::istringstream is(pre);
+        try
+        {
+            object.read(is);
+        }
+        catch (const std::exception&)
+        {
+            // (not the subject: the destination is then whatever the failed read left behind)
+        }
+    }
+}
+
+template <class tobject>
+bool rewrites_as(const tobject& object, const std::string& bytes)
+{
+    std::ostringstream os;
+    object.write(os);
+    return os.str() == bytes;
+}
+
+blob_t parameter_blob(const parameter_t& param, const std::string& pre = std::string{})
 {
     std::ostringstream os;
     param.write(os);
     blob_t blob;
-    blob.kind   = "parameter";
+    blob.kind   = pre.empty() ? "parameter" : "parameter-into-used";
     blob.bytes  = os.str();
-    blob.reader = [param](std::istream& stream)
+    blob.reader = [param, pre, bytes = blob.bytes](std::istream& stream)
     {
         parameter_t copy;
+        preload(copy, pre);
         copy.read(stream);
-        return copy == param && copy.name() == param.name();
+        return copy == param && copy.name() == param.name() && rewrites_as(copy, bytes);
     };
     return blob;
 }
 
-blob_t feature_blob(const feature_t& feature)
+blob_t feature_blob(const feature_t& feature, const std::string& pre = std::string{})
 {
     std::ostringstream os;
     feature.write(os);
     blob_t blob;
-    blob.kind   = "feature";
+    blob.kind   = pre.empty() ? "feature" : "feature-into-used";
     blob.bytes  = os.str();
-    blob.reader = [feature](std::istream& stream)
+    blob.reader = [feature, pre, bytes = blob.bytes](std::istream& stream)
     {
         feature_t copy;
+        preload(copy, pre);
         copy.read(stream);
-        return copy == feature;
+        return copy == feature && copy.labels() == feature.labels() && copy.dims() == feature.dims() && rewrites_as(copy, bytes);
     };
     return blob;
 }
@@ -366,6 +395,20 @@ int main(int argc, char* argv[])
     blobs.push_back(feature_blob(feature_t{"struct"}.scalar(feature_type::int16, make_dims(3, 2, 2))));
     blobs.push_back(feature_blob(feature_t{"sclass"}.sclass(strings_t{"a", "bb", "ccc"})));
     blobs.push_back(feature_blob(feature_t{"mclass"}.mclass(strings_t{"x", "y", "z", "t"})));
+    // ... read into used destinations (a feature / parameter of another kind loaded before)
+    {
+        const auto f0 = blobs[blobs.size() - 4].bytes, f2 = blobs[blobs.size() - 2].bytes, f3 = blobs[blobs.size() - 1].bytes;
+        const auto p0 = parameter_blob(parameter_t::make_string("string", "some text value")).bytes;
+        const auto p1 = parameter_blob(parameter_t::make_enum("enum", feature_type::sclass)).bytes;
+        blobs.push_back(feature_blob(feature_t{"scalar"}.scalar(feature_type::float64), f2));
+        blobs.push_back(feature_blob(feature_t{"struct"}.scalar(feature_type::int16, make_dims(3, 2, 2)), f3));
+        blobs.push_back(feature_blob(feature_t{"sclass"}.sclass(strings_t{"a", "bb"}), f3));
+        blobs.push_back(feature_blob(feature_t{"mclass"}.mclass(strings_t{"x", "y", "z", "t"}), f0));
+        blobs.push_back(parameter_blob(parameter_t::make_integer("int", 0, LE, 7, LE, 10), p1));
+        blobs.push_back(parameter_blob(parameter_t::make_scalar_pair("rpair", 0.0, LT, 1e-4, LT, 0.9, LT, 1.0), p0));
+        blobs.push_back(parameter_blob(parameter_t::make_enum("enum", feature_type::sclass), p0));
+        blobs.push_back(parameter_blob(parameter_t::make_string("string", ""), p1));
+    }
     const auto nsmall = blobs.size();
 
     // configured objects
@@ -418,6 +461,44 @@ int main(int argc, char* argv[])
     }
 
     // fitted weak learners, linear and gradient-boosting models
+    std::string other_gboost, other_linear;
+    try
+    {
+        // a model fitted on a problem with other inputs (purely categorical ones: labels, no scalar columns), to be overwritten
+        const auto         n  = int64_t{24};
+        auto               c1 = vt::make_sclass_column("k1", 3, n), c2 = vt::make_sclass_column("k2", 2, n);
+        auto               y  = vt::make_scalar_column("y", feature_type::float64, n);
+        for (int64_t u = 0; u < n; ++u)
+        {
+            c1.flat[static_cast<size_t>(u)] = static_cast<double>(rng.range(0, 2));
+            c2.flat[static_cast<size_t>(u)] = static_cast<double>(rng.range(0, 1));
+            y.flat[static_cast<size_t>(u)]  = c1.at(u) - 2.0 * c2.at(u) + rng.uniform(-0.1, 0.1);
+        }
+        vt::table_datasource_t source(n, std::vector<vt::column_t>{c1, c2, y}, 2U);
+        source.load();
+        dataset_t dataset(source, 1U);
+        dataset.add<sclass_identity_generator_t>();
+        const auto loss = loss_t::all().get("mse");
+        auto       lin  = linear_t::all().get("ordinary");
+        lin->fit(dataset, arange(0, n), *loss);
+        std::ostringstream los;
+        lin->write(los);
+        other_linear = los.str();
+        gboost_model_t gb;
+        gb.parameter("gboost::max_rounds") = 10;
+        rwlearners_t prototypes;
+        prototypes.emplace_back(wlearner_t::all().get("dense-table"));
+        gb.prototypes(prototypes);
+        gb.fit(dataset, arange(0, n), *loss);
+        std::ostringstream gos;
+        gb.write(gos);
+        other_gboost = gos.str();
+    }
+    catch (const std::exception& e)
+    {
+        std::fprintf(stderr, "pre-fit failed: %s\n", e.what());
+        throw;
+    }
     for (int64_t rep = 0; rep < std::max<int64_t>(1, scale / 2); ++rep)
     {
         auto       problem = std::make_shared<vt::problem_t>(vt::make_problem(rng, false, true));
@@ -471,15 +552,45 @@ int main(int argc, char* argv[])
             blob_t     blob;
             blob.kind   = "gboost";
             blob.bytes  = os.str();
-            blob.reader = [model, dataset, samples, expected](std::istream& stream)
+            blob.reader = [model, dataset, samples, expected, bytes = blob.bytes](std::istream& stream)
             {
                 gboost_model_t copy;
                 copy.read(stream);
                 return copy.parameters() == model->parameters() && copy.wlearners().size() == model->wlearners().size() &&
-                       same_bits(copy.predict(*dataset, samples), *expected);
+                       same_bits(copy.predict(*dataset, samples), *expected) && rewrites_as(copy, bytes);
             };
             locate_payload(blob, model->bias());
             blobs.push_back(blob);
+
+            // into used destinations: the fitted model read over a model without weak learners / prototypes and the other way round,
+            // and over a model fitted on another problem
+            gboost_model_t     empty;
+            std::ostringstream eos;
+            empty.write(eos);
+            const auto ebytes = eos.str();
+            auto       used   = blob;
+            used.kind         = "gboost-into-used";
+            used.reader       = [model, dataset, samples, expected, bytes = blob.bytes, pre = rng.coin() ? ebytes : other_gboost](std::istream& stream)
+            {
+                gboost_model_t copy;
+                preload(copy, pre);
+                copy.read(stream);
+                return copy.parameters() == model->parameters() && copy.wlearners().size() == model->wlearners().size() &&
+                       same_bits(copy.predict(*dataset, samples), *expected) && rewrites_as(copy, bytes);
+            };
+            blobs.push_back(used);
+            blob_t unfitted;
+            unfitted.kind   = "gboost-into-used";
+            unfitted.bytes  = ebytes;
+            unfitted.reader = [ebytes, pre = blob.bytes](std::istream& stream)
+            {
+                gboost_model_t copy;
+                preload(copy, pre);
+                copy.read(stream);
+                return copy.wlearners().empty() && copy.parameters() == gboost_model_t{}.parameters() && rewrites_as(copy, ebytes);
+            };
+            blobs.push_back(unfitted);
+            other_gboost = blob.bytes;
         }
         for (const auto& id : linear_t::all().ids())
         {
@@ -491,15 +602,30 @@ int main(int argc, char* argv[])
             blob_t     blob;
             blob.kind   = "linear:" + id;
             blob.bytes  = os.str();
-            blob.reader = [id, model, dataset, samples, expected](std::istream& stream)
+            blob.reader = [id, model, dataset, samples, expected, bytes = blob.bytes](std::istream& stream)
             {
                 auto copy = linear_t::all().get(id);
                 copy->read(stream);
-                return copy->parameters() == model->parameters() && same_bits(copy->predict(*dataset, samples), *expected);
+                return copy->parameters() == model->parameters() && same_bits(copy->predict(*dataset, samples), *expected) && rewrites_as(*copy, bytes);
             };
             locate_payload(blob, model->weights());
             locate_payload(blob, model->bias());
             blobs.push_back(blob);
+            if (!other_linear.empty())
+            {
+                // into a used destination: a model of the same kind fitted on another problem (other inputs, other labels)
+                auto used   = blob;
+                used.kind   = "linear-into-used:" + id;
+                used.reader = [id, model, dataset, samples, expected, bytes = blob.bytes, pre = other_linear](std::istream& stream)
+                {
+                    auto copy = linear_t::all().get(id);
+                    preload(*copy, pre);
+                    copy->read(stream);
+                    return copy->parameters() == model->parameters() && same_bits(copy->predict(*dataset, samples), *expected) && rewrites_as(*copy, bytes);
+                };
+                blobs.push_back(used);
+            }
+            other_linear = blob.bytes;
         }
     }
 
